@@ -198,6 +198,9 @@ def special(s: str) -> bool:
 
 def check_string_literal(run: common.Run, s: str, where: str, report) -> None:
     """The string s, used as value / key / tag name / URL, must come out of the CEL literal exactly."""
+    if where == "value" and s in ("true", "false"):
+        run.event("skipped-boolean-shorthand")  # these two lower-case texts are the translator's documented spelling of a boolean test, not string literals
+        return
     run.tick()
     if special(s):
         run.nt((where, s))
